@@ -18,7 +18,7 @@ from vmon.libutil import monitored
 
 LEVEL = "exploration"
 SHARDS = {"quick": 16, "thorough": 16}
-MUST = ["schedules.cut_inside_header", "kind.bytes", "kind.file", "kind.socket", "kind.socketpair", "kind.realfile",
+MUST = ["schedules.cut_inside_header", "schedules.several_packets_per_delivery", "option.show_progress", "kind.bytes_subclass", "filemoved.read-all", "filemoved.seek-end", "filemoved.other-generator", "kind.bytes", "kind.file", "kind.socket", "kind.socketpair", "kind.realfile",
         "bigstream.packets", "via_packet_generator", "filepos.written", "filepos.partly-read", "filepos.at-end", "filepos.parsed-once", "file.update_mode", "header.all-zero"]
 RULE = ("each case = (packet list, prefix length k, source kind, read size / recv schedule); the generator is stepped "
         "with next() under a step budget and the yielded sequence compared with the packet list. Enumerated "
@@ -26,7 +26,10 @@ RULE = ("each case = (packet list, prefix length k, source kind, read size / rec
         "stream. Also: read sizes {1,2,3,5,6,7,8,13,64,4096,default,>len} x prefixes {0,1,4,6,7,13} x data lengths "
         "{1,2,255,256,4090,4091,65535,65536}, chunk borders inside a header / on a packet border / one byte either "
         "side, legal short reads, real files, real socketpairs fed by a thread, packet_generator(ccsds_headers_only), "
-        "random header words, and a 21 MB stream (buffer-trim branch). distinct_nontrivial = distinct (source kind, "
+        "random header words, and a 21 MB stream (buffer-trim branch); the stream as the library's own bytes subclass; "
+        "show_progress=True on bytes, file and socket runs; socket deliveries holding several whole packets; file objects "
+        "used by someone else (read to the end / seek / a second generator consumed first) between creating the generator "
+        "and taking the first packet; files opened for update and handed over partly unflushed. distinct_nontrivial = distinct (source kind, "
         "read-size class, prefix class, cut-position classes, size class) signatures; a single small packet read "
         "from bytes with k=0 is the trivial case and is excluded.")
 ASSUMPTIONS = ["on sockets there is no end of stream: exactly N items are taken (what happens after the peer closes is C10)",
@@ -89,9 +92,23 @@ def judge(ctx, kind, pkts, items, end, wit, want_end):
     return True
 
 
-def run_case(ctx, kind, pkts, stream, k, r=None, chunks=None, rng=None, via_def=False, sig=()):
+def run_case(ctx, kind, pkts, stream, k, r=None, chunks=None, rng=None, via_def=False, sig=(), progress=False, moved=None):
+    """progress: show_progress=True (a display option; its output is swallowed). moved: what happens to a file source between
+    the creation of the generator and its first next() - 'read-all', 'seek-end', 'other-generator' (a second generator over
+    the same file object consumed first)"""
+    if progress:
+        import contextlib
+        ctx.count("option.show_progress")
+        with contextlib.redirect_stdout(io.StringIO()):
+            return _run_case(ctx, kind, pkts, stream, k, r, chunks, rng, via_def, sig, True, moved)
+    return _run_case(ctx, kind, pkts, stream, k, r, chunks, rng, via_def, sig, False, moved)
+
+
+def _run_case(ctx, kind, pkts, stream, k, r, chunks, rng, via_def, sig, progress, moved):
     from space_packet_parser import packets as P
     kw = {"skip_header_bytes": k}
+    if progress:
+        kw["show_progress"] = True
     if r is not None:
         kw["buffer_read_size_bytes"] = r
     wit = {"kind": kind, "k": k, "read_size": r, "n_packets": len(pkts), "stream_len": len(stream),
@@ -101,6 +118,8 @@ def run_case(ctx, kind, pkts, stream, k, r=None, chunks=None, rng=None, via_def=
     try:
         if kind == "bytes":
             src = stream
+        elif kind == "rawpacketdata":
+            src = P.RawPacketData(stream)      # a bytes object of the library's own bytes subclass holding the whole stream
         elif kind == "file":
             src = sources.RecordingFile(stream)
         elif kind == "shortfile":
@@ -154,9 +173,21 @@ def run_case(ctx, kind, pkts, stream, k, r=None, chunks=None, rng=None, via_def=
             ctx.count("via_packet_generator")
         else:
             gen = P.ccsds_generator(src, **kw)
+        if moved is not None:
+            # the file object is used by someone else between handing it to the framer and taking the first packet
+            ctx.count(f"filemoved.{moved}")
+            if moved == "read-all":
+                src.read()
+            elif moved == "seek-end":
+                src.seek(0, 2)
+            else:
+                other = [bytes(x) for x in itertools.islice(P.ccsds_generator(src, **kw), len(pkts) + 1)]
+                if other != pkts:
+                    ctx.violation("file/other-generator-on-same-file", "a second generator over the same file object, consumed first, differs from the packet list", wit)
         is_sock = kind in ("socket", "socketpair")
         items, end = step_all(ctx, gen, len(pkts), take_exactly=len(pkts) if is_sock else None)
-        ok = judge(ctx, {"shortfile": "file", "bytesio": "file", "bytesio-pos": "file", "realfile-update": "realfile"}.get(kind, kind), pkts, items, end, wit,
+        ok = judge(ctx, {"shortfile": "file", "bytesio": "file", "bytesio-pos": "file", "realfile-update": "realfile", "rawpacketdata": "bytes"}.get(kind, kind)
+                   + ("/moved-before-first-next" if moved else "") + ("/show_progress" if progress else ""), pkts, items, end, wit,
                    "taken" if is_sock else "stop")
         gen.close()
         # ---- source-side history checks ---------------------------------------------------------------
@@ -166,7 +197,7 @@ def run_case(ctx, kind, pkts, stream, k, r=None, chunks=None, rng=None, via_def=
                               "although every packet it was asked for had been delivered in full (would block forever)", wit)
             if ok and src.delivered < sum(len(p) + k for p in pkts):
                 ctx.violation("socket/conservation", "yielded more bytes than the source delivered", wit)
-        if kind in ("file", "shortfile") and ok:
+        if kind in ("file", "shortfile") and ok and moved is None:
             delivered = sum(n for _, n in src.log)
             if delivered != len(stream):
                 ctx.violation("file/conservation", f"source delivered {delivered} of {len(stream)} bytes yet all packets were yielded", wit)
@@ -230,8 +261,14 @@ def run(ctx):
                 dlens = [dl, rng.choice([1, 3, 9]), dl if dl < 5000 else 2]
                 pkts, stream = build(rng, dlens, k)
                 sc = ("L" + str(dl.bit_length()), "k" + str(k))
-                run_case(ctx, "bytes", pkts, stream, k, sig=sc if (k or dl > 2) else ())
-                run_case(ctx, "file", pkts, stream, k, r=r, sig=(rclass(r, len(stream)),) + sc)
+                run_case(ctx, "bytes", pkts, stream, k, sig=sc if (k or dl > 2) else (), progress=item % 6 == 1)
+                run_case(ctx, "file", pkts, stream, k, r=r, sig=(rclass(r, len(stream)),) + sc, progress=item % 6 == 2)
+                if item % 3 == 1:
+                    run_case(ctx, "rawpacketdata", pkts, stream, k, sig=("bytes-subclass",) + sc)
+                    ctx.count("kind.bytes_subclass")
+                if item % 4 == 1 and len(stream) < 200000:
+                    mv = ("read-all", "seek-end", "other-generator")[(item // 4) % 3]
+                    run_case(ctx, "bytesio" if item % 8 == 1 else "file", pkts, stream, k, r=r, moved=mv, sig=("moved", mv, rclass(r, len(stream))))
                 if r is not None:
                     run_case(ctx, "shortfile", pkts, stream, k, r=max(r, 2), rng=rng, sig=(rclass(r, len(stream)),) + sc)
                     # socket with recv size r and random fragmentation
@@ -243,7 +280,7 @@ def run(ctx):
                         sizes.append(c)
                         left -= c
                     if len(sizes) < 30000 and not (r <= 8 and dl > 4091):
-                        run_case(ctx, "socket", pkts, stream, k, r=r, chunks=sizes, sig=(rclass(r, len(stream)),) + sc)
+                        run_case(ctx, "socket", pkts, stream, k, r=r, chunks=sizes, sig=(rclass(r, len(stream)),) + sc, progress=item % 3 == 0)
                 if item % 5 == 0:
                     run_case(ctx, "realfile", pkts, stream, k, r=r, sig=(rclass(r, len(stream)),) + sc)
                     run_case(ctx, "bytesio", pkts, stream, k, r=r)
@@ -271,9 +308,15 @@ def run(ctx):
                              ("in-header", k + 3), ("hdr-end", k + 6), ("hdr-end-1", k + 5)):
             cuts = sorted({b + delta for b in borders[1:] if 0 < b + delta < len(stream)})
             sizes = [b - a for a, b in zip([0] + cuts, cuts + [len(stream)])]
-            run_case(ctx, "socket", pkts, stream, k, chunks=sizes, sig=("border", where, "k" + str(k)))
+            run_case(ctx, "socket", pkts, stream, k, chunks=sizes, sig=("border", where, "k" + str(k)), progress=(trial + len(where)) % 2 == 0)
             if where == "in-header":
                 ctx.count("schedules.cut_inside_header")
+        # deliveries that each hold several whole packets (cuts on every second / third packet border)
+        for step in (2, 3):
+            cuts = [b for b in borders[step::step]]
+            sizes = [b - a for a, b in zip([0] + cuts, cuts + [len(stream)])]
+            run_case(ctx, "socket", pkts, stream, k, chunks=sizes, sig=("border", f"every-{step}-packets", "k" + str(k)), progress=trial % 2 == 0)
+            ctx.count("schedules.several_packets_per_delivery")
         # real socketpair with a feeder thread
         if trial % 3 == 0:
             sizes = [rng.randrange(1, 40) for _ in range(len(stream) // 10 + 2)]
